@@ -118,6 +118,15 @@ func genOpt(stream string, seed uint64, nRandom int) []GenCase {
 			}
 		}
 	}
+	// constant operations right next to jump targets and joins: a fold must never swallow an instruction that
+	// some other path jumps to
+	for _, script := range []string{"return (Flag ? 2 : 3) + 4;", "x = (Flag ? 2 : 3) * 4 + 1; return x;", "if (Flag) { y = 1; } return 2 + 3;", "while (Off) { return 9; } return 1 + 2 * 3;",
+		"return 1 + (Flag ? 2 * 3 : 4 - 1);", "x = Flag ? 1 + 1 : 2 + 2; return x + 3 * 3;", "foreach v in [1 + 1, 2 * 2] { if (v == 2 + 2) { return v + 1 * 1; } } return 0 - 1;",
+		"switch (Count) { case 1 + 1 { return 2 * 2; } case 3 { return 3 + 3; } default { return 1 - 1; } }", "return (Flag ? 10 : 20) / 2 - 1 * 2;", "x = 0; if (Flag) { x = 1 + 2; } else { x = 3 * 4; } return x - 1 + 1;",
+		"return [1 + 1, Flag ? 2 + 2 : 3 + 3, 4 * 4];", "return {\"a\": 1 + 1, \"b\": Flag ? 2 : 3 + 3};", "function f(a) { return a ? 1 + 1 : 2 * 2; } return f(Flag) + 3 - 3;"} {
+		out = append(out, pairCases(stream, fmt.Sprintf("opt-%d", n), &id, script, r, []string{"code", "stack"}, []string{"tmpl:fold-next-to-join"}, 4)...)
+		n++
+	}
 	// the operand bytes in front of a conditional jump take every small value (they coincide with opcode
 	// numbers): a bare field, variable, literal or call as the condition, its constant index / value 0..40
 	for k := 0; k <= 40; k++ {
@@ -259,6 +268,19 @@ func genFn(stream string, seed uint64, n int) []GenCase {
 	} {
 		c := Case{ID: fmt.Sprintf("%s-depth-%d", stream, k), Script: script, Opt: k%2 == 0, Fns: []HostFn{recFn()}, Tags: []string{"call-depth-boundary"},
 			Runs: []Run{{Obj: stdObject(r), Polls: -1}}}
+		out = append(out, GenCase{Case: c, Stream: stream, NonTrivial: true})
+	}
+	// leaving a function from inside SEVERAL nested loops (return, error) closes all of their scopes and the
+	// function's own: afterwards the caller's variables named like the parameters and loop variables are back
+	for k, script := range []string{
+		"p = 100; q = 200; function find(p, q) { foreach a in [1, 2] { foreach b in [3, 4] { if (b == q) { return p; } } } return 0; } r = find(7, 3); return [p, q, r, a, b];",
+		"p = 100; function find(p) { foreach a in [1, 2] { foreach b in [3, 4] { foreach c in \"xy\" { if (c == \"y\") { return p; } } } } return 0; } r = find(7); return [p, r, a, b, c];",
+		"p = 100; function bad(p) { foreach a in [1, 2] { foreach b in [3, 4] { x = 1 / (b - 3); } } return 0; } r = 5; if (Flag) { r = bad(7); } return [p, r];",
+		"p = 100; function outer(p) { foreach a in [1] { foreach b in [2] { return inner(p + 1); } } return 0; } function inner(p) { foreach c in [1] { foreach d in [2] { return p * 2; } } return 0; } r = outer(7); return [p, r];",
+		"p = 1; function f(p) { foreach i, a in [1, 2] { foreach j, b in {\"k\": 1} { switch (b) { case 1 { return p; } } } } return 0; } x = f(5); y = f(6); return [p, x, y, i, j];",
+	} {
+		c := Case{ID: fmt.Sprintf("%s-nested-exit-%d", stream, k), Script: script, Opt: k%2 == 0, Fns: []HostFn{recFn()}, Tags: []string{"exit-from-nested-loops"},
+			Runs: []Run{{Obj: stdObject(r), Polls: defaultPolls}, {Obj: stdObject(r), Polls: defaultPolls}}}
 		out = append(out, GenCase{Case: c, Stream: stream, NonTrivial: true})
 	}
 	// a function without `return` gives nothing, whatever its last instruction is: sweep the operand of the
@@ -513,6 +535,18 @@ func genHist(stream string, seed uint64, n int) []GenCase {
 		c2.Runs = []Run{{Obj: mkp(1, "a", "x"), Polls: defaultPolls}, {Obj: HV{Kind: "nil"}, Polls: defaultPolls}, {Obj: mkp(2, "b", "y"), Polls: defaultPolls}, {Obj: other, Polls: defaultPolls},
 			{Obj: asMap, Polls: defaultPolls}, {Obj: HV{Kind: "nil"}, Polls: defaultPolls}, {Obj: HV{Kind: "nilptr"}, Polls: defaultPolls}}
 		out = append(out, GenCase{Case: c2, Stream: stream, NonTrivial: true, Pair: "self", Role: "history"})
+	}
+	// failures (not runaway recursion) at the bottom of deep recursions, several times, then ordinary calls:
+	// whatever depth was open when a run died is forgotten
+	for k, fault := range []string{"return 1 % 0;", "return 1 / 0;", "panic(\"deep\");", "return nosuch();", "return down(1, 2);", "return [1][0].x;"} {
+		cnt := func(v int64) HV {
+			return HV{Kind: "struct", Fields: []HField{{"Count", true, HV{Kind: "int", IntKind: "int", I: v}}}}
+		}
+		c := Case{ID: fmt.Sprintf("%s-faultdepth-%d", stream, k), Opt: k%2 == 0, Fns: []HostFn{recFn()}, Tags: []string{"history", "fault-at-depth"}, Show: []string{"fresh"},
+			Script: "function down(n) { if (n <= 0) { " + fault + " } return down(n - 1) + 1; } function ok(a) { return a + 1; } runs = runs + 1; if (Count > 0) { return down(Count); } return ok(ok(1));"}
+		c.AddVar("runs", VInt(0))
+		c.Runs = []Run{{Obj: cnt(0), Polls: 5000}, {Obj: cnt(5000), Polls: 190000}, {Obj: cnt(0), Polls: 5000}, {Obj: cnt(5000), Polls: 190000}, {Obj: cnt(0), Polls: 5000}, {Obj: cnt(4000), Polls: 190000}, {Obj: cnt(0), Polls: 5000}}
+		out = append(out, GenCase{Case: c, Stream: stream, NonTrivial: true, Pair: "self", Role: "history"})
 	}
 	for k, pend := range []string{"return 100 + boom(1);", "return [1, 2, boom(1)];", "return helper2(7, 8, boom(1));", "x = {\"k\": boom(1)}; return x;", "return 100 + argc();", "return 100 + helper2(boom(1), 2, 3) + 5;"} {
 		for j, after := range []string{"x = print(Name); return x;", "if (printf(\"%s\", Name)) { return 1; } return 2;", "return rec(1) + 1;", "y = rec(2); return [y];"} {
@@ -793,6 +827,22 @@ func genApi(stream string, seed uint64, n int) []GenCase {
 			id++
 			out = append(out, GenCase{Case: c, Stream: stream, NonTrivial: true, Role: "api"})
 		}
+	}
+	// the same evaluator prepared again with ANOTHER script: variables stay; functions, constants and code of
+	// the first script are gone (an unknown function is an error again)
+	for j, p := range [][2]string{
+		{"function helper(a) { return a + 1; } kept = helper(1); return kept;", "return helper(5);"},
+		{"function helper(a) { return a + 1; } kept = helper(1); return kept;", "return kept;"},
+		{"function twice(a) { return a * 2; } return twice(2);", "function twice(a) { return a * 3; } return twice(2);"},
+		{"x = 1; return [1, 2, 3];", "return x + 70000;"},
+		{"function f() { return 1; } return f();", "function g() { return f(); } return g();"},
+		{"return 1", "return 2;"},
+		{"return 1;", "return 2"},
+	} {
+		c := Case{ID: fmt.Sprintf("%s-%d", stream, id), Script: p[0], Again: p[1], Opt: j%2 == 0, Show: []string{"spec"}, Tags: []string{"api:prepare-again"}, Fns: []HostFn{recFn()},
+			Runs: []Run{{Obj: stdObject(r), Polls: defaultPolls}, {Obj: stdObject(r), Polls: defaultPolls}}}
+		id++
+		out = append(out, GenCase{Case: c, Stream: stream, NonTrivial: true, Role: "api"})
 	}
 	// AddFunction between runs, without a new Prepare: the next run calls what is registered NOW - also for a
 	// name the script has already called, also for the name of a built-in, also a function added for the first time
